@@ -40,6 +40,7 @@ def run(p: Project, tier: str) -> Result:
     check_one_grant_per_sweep(p, r)
     check_delay(p, r)
     r.ctx = ''
+    check_item_length_reaches_the_item(p, r)
     r.rule('C12.R4', 'each conveyor hands its configured speed / slot delay unchanged to its belt store', 2)
     for ci in tables.edge_classes(p):
         if ci.name != 'ConveyorBelt':
@@ -131,6 +132,83 @@ def check_spacing(p, r):
                                  'one instant are all granted and their items enter at the same instant', src(fi.module), fi.node.lineno, bad_e.describe())
         else:
             r.ok('C12.R1', k2, 'one admission per instant', src(fi.module), fi.node.lineno)
+
+
+def _ctor_param_stored_as(p, cname, attr, depth=0):
+    """index (among the non-self parameters) and name of the constructor parameter of class `cname` whose value ends up in `self.<attr>` - directly, or
+    handed on to the base-class constructor that stores it; None when the class (chain) does not store such a parameter"""
+    cls = next((c for c in p.raw_classes() if c.name == cname), None) if hasattr(p, 'raw_classes') else None
+    if cls is None:
+        for m in p.raw().modules.values():
+            for n in ast.walk(m.tree):
+                if isinstance(n, ast.ClassDef) and n.name == cname:
+                    cls = n
+    if cls is None or depth > 4:
+        return None
+    init = next((f for f in cls.body if isinstance(f, ast.FunctionDef) and f.name == '__init__'), None)
+    if init is None:
+        for b in cls.bases:
+            got = _ctor_param_stored_as(p, ast.unparse(b).split('.')[-1], attr, depth + 1)
+            if got is not None:
+                return got
+        return None
+    params = [a.arg for a in init.args.args][1:]
+    for n in ast.walk(init):
+        if isinstance(n, ast.Assign) and len(n.targets) == 1 and self_attr(n.targets[0]) == attr and isinstance(n.value, ast.Name) and n.value.id in params:
+            return params.index(n.value.id), n.value.id
+    for n in ast.walk(init):
+        if isinstance(n, ast.Call) and isinstance(n.func, ast.Attribute) and n.func.attr == '__init__' and isinstance(n.func.value, ast.Call) \
+                and ast.unparse(n.func.value.func) == 'super':
+            for b in cls.bases:
+                got = _ctor_param_stored_as(p, ast.unparse(b).split('.')[-1], attr, depth + 1)
+                if got is None:
+                    continue
+                bi, bname = got
+                actual = n.args[bi] if bi < len(n.args) else next((k.value for k in n.keywords if k.arg == bname), None)
+                if isinstance(actual, ast.Name) and actual.id in params:
+                    return params.index(actual.id), actual.id
+    return None
+
+
+def check_item_length_reaches_the_item(p, r):
+    """R5: the belt store reads `item.length` for the admission spacing and for the entering phase of the travel; the Source promises that it is its
+    `item_length`.  For every flow item the Source creates: `X.length = self.item_length` follows the creation, or the constructor argument that
+    receives `self.item_length` is the parameter the class (chain) stores in `self.length`."""
+    r.rule('C12.R5', 'every flow item a Source creates carries length = the Source\'s item_length', 2)
+    ci = next((c for c in tables.node_classes(p) if c.name == 'Source'), None)
+    if ci is None:
+        raise AnalysisError('anchor vanished: Source')
+    raw = p.raw()
+    n_sites = 0
+    for rel, m in raw.modules.items():
+        for cls in [c for c in ast.walk(m.tree) if isinstance(c, ast.ClassDef) and c.name == 'Source']:
+            for fn in [f for f in cls.body if isinstance(f, ast.FunctionDef)]:
+                for blk in [b for n in ast.walk(fn) for b in (getattr(n, 'body', None), getattr(n, 'orelse', None)) if isinstance(b, list)]:
+                    for i, st in enumerate(blk):
+                        if not (isinstance(st, ast.Assign) and isinstance(st.value, ast.Call) and isinstance(st.value.func, ast.Name)
+                                and st.value.func.id in ('Item', 'Pallet') and isinstance(st.targets[0], ast.Name)):
+                            continue
+                        n_sites += 1
+                        x = st.targets[0].id
+                        cname = st.value.func.id
+                        key = f'{rel}::Source.{fn.name}::item-length({cname})'
+                        later = any(isinstance(s2, ast.Assign) and isinstance(s2.targets[0], ast.Attribute) and isinstance(s2.targets[0].value, ast.Name)
+                                    and s2.targets[0].value.id == x and s2.targets[0].attr == 'length' and ast.unparse(s2.value) == 'self.item_length' for s2 in blk[i + 1:])
+                        via_ctor = False
+                        got = _ctor_param_stored_as(p, cname, 'length')
+                        if got is not None:
+                            idx, pname = got
+                            c = st.value
+                            actual = c.args[idx] if idx < len(c.args) else next((k.value for k in c.keywords if k.arg == pname), None)
+                            via_ctor = actual is not None and ast.unparse(actual) == 'self.item_length'
+                        if later or via_ctor:
+                            r.ok('C12.R5', key, 'assigned after creation' if later else f'constructor parameter `{got[1]}` is stored as self.length', src(rel), st.lineno)
+                        else:
+                            r.fail('C12.R5', key, f'the {cname} created here never receives the Source\'s item_length as its `length` (the value handed to the constructor '
+                                                  f'is not stored by the class chain, and nothing assigns it afterwards): the belt spaces and times it as an item of '
+                                                  f'the default length', src(rel), st.lineno)
+    if n_sites < 2:
+        raise AnalysisError(f'C12.R5: only {n_sites} flow-item creation site(s) found in Source')
 
 
 def check_one_grant_per_sweep(p, r):
